@@ -136,9 +136,26 @@ def load_contracts():
 
 
 CURRENT = []
+PASS = {'second': False, 'first': None}
 
 
-def run_main(main):
+def run_main(main, second_pass=True):
+    """Run the harness; if the first pass is clean, run it a second time IN THE SAME PROCESS with another seed.  State that
+    survives between calls (module-level caches, memoised results, objects shared through default arguments) then meets
+    different inputs - a generic guard for properties that must hold for every history of calls."""
+    rc = _run_once(main)
+    first = CURRENT[-1] if CURRENT else None
+    # (failures that carry a witness class are candidates for the known-findings list: they do not stop the second pass)
+    if second_pass and first is not None and all(f.get('witness_class') for f in first.failures) and os.environ.get('VERIF_SECOND_PASS', '1') != '0':
+        PASS['second'], PASS['first'] = True, first
+        try:
+            rc = _run_once(main)
+        finally:
+            PASS['second'] = False
+    return rc
+
+
+def _run_once(main):
     """Entry point wrapper: an exception that escapes from the REAL code (innermost frame under $VERIF_REPO) on an input the
     harness built is an outcome (`no_raise` violated, traceback in the witness), not a checker error; an exception raised by
     the harness itself still is one."""
@@ -174,7 +191,7 @@ class Harness:
         self.args = ap.parse_args()
         self.pid = pid
         self.tier = self.args.tier
-        self.seed = self.args.seed
+        self.seed = self.args.seed + (7919 if PASS['second'] else 0)
         self.evaluations = 0
         self.distinct = set()
         self.failures = []
@@ -248,6 +265,17 @@ class Harness:
         self.bounded.append({'what': what, 'bound': bound, 'evaluations': n, 'label': 'bounded (not counted as proved)'})
 
     def finish(self):
+        if PASS['second'] and PASS['first'] is not None:
+            f = PASS['first']
+            self.evaluations += f.evaluations
+            self.distinct |= {('pass1',) + (k if isinstance(k, tuple) else (k,)) for k in f.distinct}
+            self.samples = (f.samples + self.samples)[:5]
+            self.bounded = f.bounded + [dict(b, what=b['what'] + ' [second pass in the same process, other seed]') for b in self.bounded[:1]]
+            for fl in self.failures:
+                fl['detail'] = '[second pass in the same process: state left behind by the first pass met other inputs] ' + fl['detail']
+            seen_ = {(fl['clause'], fl.get('witness_class')) for fl in f.failures}
+            self.failures = f.failures + [fl for fl in self.failures if (fl['clause'], fl.get('witness_class')) not in seen_]
+            self.rules.append('the harness ran twice in one process (seeds s and s+7919): state surviving between calls meets different inputs')
         out = {'property': self.pid, 'tier': self.tier, 'seed': self.seed, 'evaluations': self.evaluations,
                'distinct_nontrivial': len(self.distinct), 'failures': self.failures, 'samples': self.samples,
                'bounded': self.bounded,
